@@ -2,6 +2,7 @@ import PolyVerif.Model.GenbankBuild
 import PolyVerif.Spec.GbStrict
 import PolyVerif.Lemmas.GbBuild
 import PolyVerif.Lemmas.GbCompose
+import PolyVerif.Lemmas.GbLayoutJ
 /-
 C03 — GenBank write-then-read is the identity; writing is deterministic; the written text
 follows the flat-file layout.
@@ -54,36 +55,48 @@ example : joinSp (splitChar '\n' (wrapString "aaaa  bbbb".toList 6)) ≠ "aaaa  
 
 /-! ### the written text follows the flat-file layout -/
 
-/-- The layout domain (every hypothesis decidable; each conjunct is a datum that the flat-file
-layout has a field for — see `Spec/GbStrict.lean`, `wfLayout`):
+/-- The layout domain = the JUDGE's layout domain `wfLayoutJ` minus exactly the two known findings
+(every conjunct decidable, see `Spec/GbStrict.lean`):
 locus name a non-empty blank-free word, length digits (or empty), molecule type one of poly's twelve
 (or empty), division one of the eighteen (or empty), date `dd-MMM-yyyy` (or empty); the six metadata
-texts, every reference field and every extra-block value single-spaced ASCII of ANY length; extra
+texts, every reference field and every extra-block value printable ASCII of ANY length without a
+blank at either end, RUNS OF BLANKS INSIDE ALLOWED as long as none of them falls on a wrap point of
+`WrapString(_, 68)` (`!clsBlankRun x`); a reference number that is unset or a blank-free word; extra
 keywords distinct, ≤ 12 columns, beginning with a letter, not one of the writer's own keywords;
 feature keys ≤ 15 columns; qualifier keys distinct blank-free words without `=`; qualifier values
 printable ASCII of any length; cached location text blank-free; sequence 1 ≤ length < 10^9 letters. -/
-def WFLayout (x : Sequence) : Prop := wfLayout x = true
+def WFLayout (x : Sequence) : Prop := wfLayoutG x = true
 
 instance (x : Sequence) : Decidable (WFLayout x) := by unfold WFLayout; infer_instance
 
-/-- **Layout clause** (`_partial`: the full clause is over the judge's domain `wfLayoutJ`, which also
-holds records with runs of blanks in metadata and name-less records; those two classes are the
-known findings `C03-blank-run-at-wrap` and `C03-nameless-locus`, with the witnesses below, and
-`WFLayout` excludes them — it demands single-spaced metadata, which is more than "no run of blanks
-at a wrap point").  For every record of the layout domain and every map iteration order, the
+/-- the judge's layout domain is partitioned exactly: the theorem's domain, or one of the two known findings -/
+theorem layout_domain_partition (x : Sequence) (h : wfLayoutJ x = true) :
+    WFLayout x ∨ clsBlankRun x = true ∨ clsNameless x = true := by
+  unfold WFLayout wfLayoutG clsNameless
+  cases hb : clsBlankRun x <;> cases hn : (x.metadata.locus.name == []) <;> simp_all
+
+/-- the former domain (single-spaced metadata) lies inside it -/
+theorem wfLayout_subset (x : Sequence) (h : wfLayout x = true) :
+    strictRead (build x MapOrders.id) = some (abs x) :=
+  PolyVerif.Lemmas.GbLayoutJ.strict_layout_of_facts x (PolyVerif.Lemmas.GbLayoutJ.facts_of_wfLayout x h)
+
+/-- **Layout clause** (`_partial` only in that it excludes EXACTLY the two known findings
+`C03-blank-run-at-wrap` and `C03-nameless-locus`, for which the witnesses below show that it fails:
+`layout_domain_partition`).  For every record of the judge's layout domain outside those two classes
+and every map iteration order, the
 independent strict column reader (keyword = columns 1-12, continuation ⇔ 12 leading blanks, feature
 key in columns 6-20 / location from column 22, qualifier `/k="v"` at column 22, ORIGIN counter in
 columns 1-9 then groups of 10, terminator `//`) recovers exactly `abs x` from the text `Build`
-writes — with metadata wrapped over any number of lines, any number of references, extra blocks,
-features and qualifiers, and a sequence of any length below 10^9.  Every reference is recovered with its
-number: its own `Index` when set (any blank-free word — no positional numbering is assumed here), else its
-position (`refNum`).  The clause "with and without cached location text" is part of this statement: the location
-column the reader must find is the cached text when there is one and `BuildLocationString` of the structure
-otherwise (`absFeat`). -/
+writes — with metadata wrapped over any number of lines (runs of blanks inside a line are kept), any
+number of references, extra blocks, features and qualifiers, and a sequence of any length below 10^9.
+Every reference is recovered with its number: its own `Index` when set (any blank-free word — no
+positional numbering is assumed here), else its position (`refNum`).  The clause "with and without
+cached location text" is part of this statement: the location column the reader must find is the cached
+text when there is one and `BuildLocationString` of the structure otherwise (`absFeat`). -/
 theorem build_strict_layout_partial (x : Sequence) (o : MapOrders) (h : WFLayout x) :
     strictRead (build x o) = some (abs x) := by
   rw [build_deterministic x o MapOrders.id]
-  exact PolyVerif.Lemmas.GbCompose.strict_layout_id x h
+  exact PolyVerif.Lemmas.GbLayoutJ.strict_layout_of_facts x (PolyVerif.Lemmas.GbLayoutJ.facts_of_wfLayoutG x h)
 
 /-- a record with wrapped metadata, a reference with sub-blocks, two extra keyword blocks (given
 out of order), a structural join location, a cached location, unsorted qualifiers and 70 bases -/
@@ -105,7 +118,11 @@ def exampleRecord : Sequence :=
     sequence := "acgtacgtacgtacgtacgtacgtacgtacgtacgtacgtacgtacgtacgtacgtacgtacgtacgtac".toList }
 
 /-- non-vacuity: the example lies in the layout domain … -/
-example : WFLayout exampleRecord := by decide
+example : WFLayout exampleRecord := by decide +kernel
+
+/-- … and so does a record whose definition holds a run of three blanks that stays inside a line -/
+example : WFLayout { exampleRecord with metadata := { exampleRecord.metadata with definition := "two   words".toList } } := by
+  decide +kernel
 
 /-- … and, as a test of the statement on it, the reader does recover the record (kernel evaluation) -/
 example : strictRead (build exampleRecord { other := [1, 0], quals := fun _ => [1] }) = some (abs exampleRecord) := by
@@ -114,7 +131,7 @@ example : strictRead (build exampleRecord { other := [1, 0], quals := fun _ => [
 /-- outside the domain the clause fails: a 13-column extra keyword is cut by the column reader -/
 example :
     let x : Sequence := { exampleRecord with metadata := { exampleRecord.metadata with other := [("ABCDEFGHIJKLM".toList, "v".toList)] } }
-    ¬ WFLayout x ∧ strictRead (build x {}) ≠ some (abs x) := by decide
+    ¬ WFLayout x ∧ strictRead (build x {}) ≠ some (abs x) := by decide +kernel
 
 /-! ### known findings: kernel-checked witnesses -/
 
